@@ -284,7 +284,15 @@ func cmdCheck(args []string) {
 				inconclusive = append(inconclusive, fmt.Sprintf("%s: counterexample for %q did not reproduce in replay (see %s)", hs.Name, k, replayPath))
 			}
 		}
-		// races reported by T2 harnesses are violations of C18 handled by the harness' own assertions
+		// translator validation on the unchanged paths: solver witnesses of completed paths are run natively through the
+		// same harness (real toolchain, real build); the native run must not trip any assertion
+		if hs.Replay == "native" && !*noReplay && len(res.Violations) == 0 {
+			n, bad := nativeValidateSamples(*repo, *vdir, pkgShort, hs.Name, id, params, res.Samples)
+			validated += n
+			if bad != "" {
+				inconclusive = append(inconclusive, fmt.Sprintf("%s: native run of a solver witness disagrees with the engine: %s", hs.Name, bad))
+			}
+		}
 	}
 
 	writeEvidence(*vdir, id, *tier, seed, spec, results, totalViol, validated, time.Since(t0).Seconds(), loadS, inconclusive)
@@ -487,4 +495,87 @@ func engineReplay(P *Program, hs HarnessSpec, pkgPath string, params map[string]
 	}
 	b, _ := json.Marshal(res.EndReasons)
 	return false, "engine replay with pinned inputs did not reproduce; end reasons " + string(b) + " unsupported " + strings.Join(res.Unsupported, ";")
+}
+
+// nativeValidateSamples builds the package's test binary once (harness overlaid) and runs it for each sample witness.
+func nativeValidateSamples(repo, vdir, pkg, harness, id string, params map[string]int, samples []map[string]any) (int, string) {
+	var wit []map[string]any
+	for _, s := range samples {
+		if w, ok := s["witness_inputs"].(map[string]any); ok {
+			wit = append(wit, w)
+		}
+	}
+	if len(wit) == 0 {
+		return 0, ""
+	}
+	tmp, err := os.MkdirTemp("", "verif-validate-")
+	if err != nil {
+		return 0, ""
+	}
+	defer os.RemoveAll(tmp)
+	overlay := map[string]string{}
+	files, _ := filepath.Glob(filepath.Join(vdir, "harness", pkg, "*.go"))
+	for _, f := range files {
+		overlay[filepath.Join(repo, "internal", pkg, "zz_verif_"+filepath.Base(f))] = f
+	}
+	test := fmt.Sprintf(`package %s
+
+import (
+	"fmt"
+	"testing"
+)
+
+func TestVerifReplay(t *testing.T) {
+	defer func() {
+		if r := recover(); r != nil {
+			if _, ok := r.(vAssumeFailed); ok {
+				fmt.Println("VERIF-ASSUME-FAILED")
+				return
+			}
+			fmt.Println("VERIF-PANIC", r)
+		}
+	}()
+	%s()
+	fmt.Println("VERIF-REPLAY-DONE failures:", len(vFailures))
+}
+`, pkg, harness)
+	tf := filepath.Join(tmp, "replay_test.go")
+	os.WriteFile(tf, []byte(test), 0644)
+	overlay[filepath.Join(repo, "internal", pkg, "zz_verif_replay_test.go")] = tf
+	ob, _ := json.Marshal(map[string]any{"Replace": overlay})
+	of := filepath.Join(tmp, "overlay.json")
+	os.WriteFile(of, ob, 0644)
+	bin := filepath.Join(tmp, "replay.test")
+	build := exec.Command("go", "test", "-c", "-vet=off", "-tags", "verif", "-overlay", of, "-o", bin, "./internal/"+pkg)
+	build.Dir = repo
+	if out, err := build.CombinedOutput(); err != nil {
+		return 0, "native build failed: " + string(out)
+	}
+	ok := 0
+	for i, w := range wit {
+		rp := filepath.Join(tmp, fmt.Sprintf("w%d.json", i))
+		rb, _ := json.Marshal(map[string]any{"inputs": w, "params": params})
+		os.WriteFile(rp, rb, 0644)
+		cmd := exec.Command(bin, "-test.run", "^TestVerifReplay$", "-test.v")
+		cmd.Dir = filepath.Join(repo, "internal", pkg)
+		cmd.Env = append(os.Environ(), "VERIF_REPLAY="+rp)
+		out, _ := cmd.CombinedOutput()
+		so := string(out)
+		switch {
+		case strings.Contains(so, "VERIF-ASSERT-FAILED"), strings.Contains(so, "VERIF-PANIC"):
+			return ok, fmt.Sprintf("witness %d: %s", i, firstLine(so, "VERIF-"))
+		case strings.Contains(so, "VERIF-REPLAY-DONE failures: 0"):
+			ok++
+		}
+	}
+	return ok, ""
+}
+
+func firstLine(s, prefix string) string {
+	for _, l := range strings.Split(s, "\n") {
+		if strings.HasPrefix(l, prefix) {
+			return l
+		}
+	}
+	return ""
 }
